@@ -473,6 +473,65 @@ func (g *genRun) observe() (vals []int, keys []int, geterr string, ok bool) {
 	}
 }
 
+// backup: Backup at a quiescent instant, then the copy is opened as a database of its own and shown as a view of
+// that instant (the behaviour's "backup" step; nothing was acknowledged in between, so the copy must hold exactly
+// what the source shows). The harness goroutine is no role: its I/O is neither gated nor logged.
+func (g *genRun) backup() {
+	if g.dead || g.db == nil || g.client != nil || g.bopen || g.opener != nil {
+		return
+	}
+	db := g.db
+	bdir := g.en.FreshDir()
+	defer g.en.Drop(bdir)
+	type res struct {
+		vals, keys []int
+		geterr     string
+	}
+	done := make(chan res, 1)
+	go func() {
+		out := res{vals: make([]int, g.nkeys), keys: []int{}, geterr: "ok"}
+		defer func() {
+			if x := recover(); x != nil {
+				out.geterr = "panic"
+			}
+			done <- out
+		}()
+		if err := db.Backup(bdir); err != nil {
+			out.geterr = "backup:" + h.ErrName(err)
+			return
+		}
+		c, err := kv.Open(g.cfg.Options(bdir))
+		if err != nil {
+			out.geterr = "open:" + h.ErrName(err)
+			return
+		}
+		defer c.Close()
+		for k := 1; k <= g.nkeys; k++ {
+			b, err := c.Get(g.key(k))
+			switch name := h.ErrName(err); name {
+			case "ok":
+				out.vals[k-1] = g.e.V.ID(b)
+			case "notfound":
+				out.vals[k-1] = h.VNil
+			default:
+				out.vals[k-1] = h.VErr
+				out.geterr = name
+			}
+		}
+		for _, k := range c.ListKeys() {
+			out.keys = append(out.keys, g.e.U.Rank(k))
+		}
+	}()
+	select {
+	case out := <-done:
+		g.stats["backups"]++
+		g.en.T.Emit(h.Ev{"ev": "view", "vals": out.vals, "keys": out.keys, "geterr": out.geterr, "src": "backup"})
+	case <-time.After(3 * time.Second):
+		// blocked behind a parked role that holds the database lock: no observation here
+		g.stats["backup_skipped"]++
+	}
+}
+
 func (g *genRun) view() {
 	if g.dead || g.db == nil || g.client != nil || g.bopen || g.opener != nil {
 		return
@@ -904,7 +963,9 @@ func runScript(en *Env, sc *gscript, idx int, stats map[string]int) {
 			g.fault(true, nil, false)
 		case "powerloss":
 			g.fault(false, st.X, st.K == 1)
-		case "retry", "backup":
+		case "backup":
+			g.backup()
+		case "retry":
 		default:
 			fmt.Fprintln(os.Stderr, "gen: unknown step", st.A)
 			os.Exit(2)
